@@ -11,8 +11,9 @@ from ..ruleterms import RuleT, obs_rule_test, Tags
 
 PROP = "C05"
 IMPORTS = "Py Lang Defs Cond Dsl Check DocSem PathSpec Path Cast RuleDefs RuleSpec Rule Inst Run RunRule"
-THEOREMS = []
-FACT_LEMMAS = []
+THEOREMS = ['C05_verdict', 'C05_failures_exact', 'C05_reason', 'C05_paths_true']
+FACT_LEMMAS = ['Tie.tie_build', 'Tie.tie_call', 'C01Proof.caught_call_ok']
+DEPENDS = ['Py.v', 'Lang.v', 'Defs.v', 'Cond.v', 'Dsl.v', 'Check.v', 'DocSem.v', 'Inst.v', 'Gen/TablesGen.v', 'Gen/CallablesGen.v', 'Proofs/Tie.v', 'Proofs/PyFacts.v', 'Proofs/C01Proof.v', 'Proofs/C02Proof.v', 'Path.v', 'PathSpec.v', 'Run.v', 'Proofs/C03Proof.v', 'Proofs/C04Proof.v', 'Cast.v', 'RuleDefs.v', 'RuleSpec.v', 'RuleTerms.v', 'Rule.v', 'RunRule.v', 'Proofs/RuleProof.v', 'Proofs/SchemaSpecProof.v', 'Properties/C05.v']
 ASSUMPTIONS = ["Layer P models CPython's operators (pysem)"]
 
 
